@@ -246,8 +246,17 @@ def rule_r2(ctx, rep):
                     if isinstance(n, ast.Assign) and any(isinstance(t, ast.Attribute) and nm.canon(t.attr) == "_nsmap" and _path(t.value) == lp.target.id for t in n.targets):
                         from ..condeval import enclosing_ifs
                         gs = [g for (g, b) in enclosing_ifs(fi, n) if b and any(x is g for x in ast.walk(lp))]
-                        ok = any(isinstance(g.test, ast.Compare) and idvar in norm(g.test) and f"id({lp.target.id}.nsmap)" in norm(g.test).replace("_nsmap", "nsmap")
-                                 and isinstance(g.test.ops[0], ast.Eq) for g in gs)
+
+                        def test_of(g):
+                            t = g.test
+                            if isinstance(t, ast.Name):  # a local boolean bound once to the comparison
+                                defs = [a.value for a in ast.walk(lp) if isinstance(a, ast.Assign) and any(isinstance(x, ast.Name) and x.id == t.id for x in a.targets)]
+                                if len(defs) == 1:
+                                    return defs[0]
+                            return t
+                        ok = any(isinstance(test_of(g), ast.Compare) and idvar in norm(test_of(g))
+                                 and f"id({lp.target.id}.nsmap)" in norm(test_of(g)).replace("_nsmap", "nsmap")
+                                 and isinstance(test_of(g).ops[0], ast.Eq) for g in gs)
                         rep.count("child re-attachments")
                         rep.oblige(("R2c", fi.qname, norm(n)), ok)
                         if not ok:
@@ -348,7 +357,7 @@ def rule_r3(ctx, rep):
         if not ok_args:
             rep.add("R3", fi.qname, c, "the prefix is handed to the child with a URI other than the parent's binding for it", fi.loc(c))
         # every iteration with an absent prefix reaches the call: no early exit in the loop
-        bad = [x for x in ast.walk(loop) if isinstance(x, (ast.Break, ast.Return, ast.Continue))]
+        bad = [x for x in ast.walk(loop) if isinstance(x, (ast.Break, ast.Return))]
         if bad:
             rep.add("R3", fi.qname, bad[0], "the hand-over loop is left early: later parent prefixes do not reach the child", fi.loc(bad[0]))
     # direct sharing of the parent's dict is allowed only when the two maps are equal
